@@ -755,6 +755,9 @@ def run(prog, rep, tier):
     rep.rule('VALUE-dead', 'no result of a call is bound to a local that is never read (reaching '
              'definitions)')
     check_dead_computations(prog, rep, ['tenpy/linalg/krylov_based.py', 'tenpy/linalg/sparse.py'])
+    from ..flow import check_undefined_attrs
+    rep.rule('ATTR-defined', 'every self.X read names an attribute bound somewhere in the class family')
+    check_undefined_attrs(prog, rep, ['tenpy/linalg/krylov_based.py', 'tenpy/linalg/sparse.py'])
     return rep.finish(
         level='other',
         explanation='Sibling-loop agreement of the Lanczos recurrence (independence of N_cache), '
